@@ -152,6 +152,10 @@ def engArithVV (s : St) (op : String) (tc : List String) (a b : Dense) (o : Opts
         let s ← eOp s c.win b.win f fv
         pure ⟨s, none, .fresh c⟩
 
+/-- `scalarToHeader` on a rank-0 tensor: a fresh header over the first element of its storage window (a scalar
+    view may sit on a window of several cells) -/
+def scalarWin (w : Win) : Win := if w.len ≥ 1 then { w with len := 1, cap := 1 } else { w with cap := w.len }
+
 /-- a scalar operand: a literal (fresh one-cell header) or the memory of a rank-0 tensor -/
 structure ScalarArg where
   win : Win
